@@ -9,6 +9,14 @@
 (*                   tracked- TaskManager._pending_tasks[cache] is that task,                       *)
 (*                   zombie - an earlier task of the same cache object whose done callback is still *)
 (*                            queued (only when an ended cache object is registered again).         *)
+(*                   nC     - how often the cache object was handed to a claimant (returned by      *)
+(*                            pop() / passed to a retrieve_cache handler) in this registration,     *)
+(*                   hpend  - a coroutine handler matched by retrieve_cache whose body has not run. *)
+(*                                                                                                  *)
+(* The response path (retrieve_cache): the wrapper claims the cache (pop) and only then runs the    *)
+(* handler body.  The body is arbitrary overlay code: it may fail (raise) or re-enter the request   *)
+(* cache (pop / another response / add of a new request, also with the identity just released).     *)
+(* Whatever it does, the request was claimed when it was matched: Respond = claim ; body.           *)
 (*                                                                                                  *)
 (* asyncio semantics that carry the property (Task.cancel):                                         *)
 (*   start  : task created, first step queued. cancel() => _must_cancel, coroutine body never runs. *)
@@ -31,7 +39,11 @@ CONSTANTS NC,            \* cache objects 1..NC (registered in this order the fi
           ReAdds,        \* how often an ended cache *object* may be registered again
           ExtFut,        \* a managed future may be completed by somebody else while the request is outstanding
           ReapOwnOnly,   \* TRUE : done_cb forgets only its own task (repaired).  FALSE : pinned taskmanager.py
-          LateCancel     \* TRUE : asyncio semantics.  FALSE : (control) cancelling a fired task has no effect
+          LateCancel,    \* TRUE : asyncio semantics.  FALSE : (control) cancelling a fired task has no effect
+          HScripts,      \* subset of {"none", "raise", "pop", "add"} : what the body of a matched handler does
+          CoHandlers,    \* coroutine handlers: matched (claimed) now, body runs as a later step
+          ClaimFirst     \* TRUE : retrieve_cache pops, then calls the handler.  FALSE : (control) it peeks, calls the
+                         \*        handler and pops only after the handler returned (never, when it raised)
 
 Caches == 1..NC
 Idents == 1..NI
@@ -53,8 +65,10 @@ VARIABLES ident,    \* Caches -> Idents            fixed per behaviour
           late,     \* history: on_timeout was invoked after shutdown
           shutdown,
           ovr,      \* passthrough override: [on, t, filt]
-          readds
-vars == <<ident, futk, cls, st, task, zombie, tracked, due, table, fut, nT, late, shutdown, ovr, readds>>
+          readds,
+          nC,       \* claims of the current registration
+          hpend     \* Caches \cup {0} : the cache a not yet run coroutine handler body was matched with
+vars == <<ident, futk, cls, st, task, zombie, tracked, due, table, fut, nT, late, shutdown, ovr, readds, nC, hpend>>
 params == <<ident, futk, cls>>
 
 NoOvr == [on |-> FALSE, t |-> 0, filt |-> "all"]
@@ -67,6 +81,7 @@ InitDyn == /\ st = [c \in Caches |-> "new"] /\ task = [c \in Caches |-> "none"]
            /\ due = [c \in Caches |-> 0] /\ table = [i \in Idents |-> 0]
            /\ fut = [c \in Caches |-> IF futk[c] = "none" THEN "none" ELSE "pending"]
            /\ nT = [c \in Caches |-> 0] /\ late = FALSE /\ shutdown = FALSE /\ ovr = NoOvr /\ readds = 0
+           /\ nC = [c \in Caches |-> 0] /\ hpend = 0
 
 Init == /\ ident \in [Caches -> Idents] /\ ident[1] = 1
         /\ futk = DefaultFutk /\ cls = DefaultCls
@@ -74,10 +89,10 @@ Init == /\ ident \in [Caches -> Idents] /\ ident[1] = 1
 
 (* ------------------------------ the code, as functions on a state record ------------------------ *)
 Cur == [st |-> st, task |-> task, tracked |-> tracked, due |-> due, table |-> table, fut |-> fut,
-        nT |-> nT, late |-> late]
+        nT |-> nT, late |-> late, nC |-> nC]
 
 Apply(S) == /\ st' = S.st /\ task' = S.task /\ tracked' = S.tracked /\ due' = S.due
-            /\ table' = S.table /\ fut' = S.fut /\ nT' = S.nT /\ late' = S.late
+            /\ table' = S.table /\ fut' = S.fut /\ nT' = S.nT /\ late' = S.late /\ nC' = S.nC
 
 (* TaskManager.cancel_pending_task(cache) *)
 CancelTask(S, c) ==
@@ -91,16 +106,16 @@ CancelTask(S, c) ==
 DoPop(S, i) ==
   LET c == S.table[i] IN
   IF c = 0 THEN S
-  ELSE CancelTask([S EXCEPT !.table[i] = 0, !.st[c] = "claimed"], c)
+  ELSE CancelTask([S EXCEPT !.table[i] = 0, !.st[c] = "claimed", !.nC[c] = @ + 1], c)
 
 EffDelay(c, d) == IF ovr.on /\ (ovr.filt = "all" \/ cls[c] = ovr.filt) THEN ovr.t ELSE d
 
 (* RequestCache.add(cache) *)
 DoAdd(S, c, d) ==
-  IF shutdown THEN [S EXCEPT !.st[c] = "rejected", !.nT[c] = 0, !.fut[c] = IF @ = "pending" THEN "cancelled" ELSE @]
-  ELSE IF S.table[ident[c]] # 0 THEN [S EXCEPT !.st[c] = "refused", !.nT[c] = 0]
+  IF shutdown THEN [S EXCEPT !.st[c] = "rejected", !.nT[c] = 0, !.nC[c] = 0, !.fut[c] = IF @ = "pending" THEN "cancelled" ELSE @]
+  ELSE IF S.table[ident[c]] # 0 THEN [S EXCEPT !.st[c] = "refused", !.nT[c] = 0, !.nC[c] = 0]
   ELSE [S EXCEPT !.st[c] = "outstanding", !.table[ident[c]] = c, !.task[c] = "start", !.tracked[c] = TRUE,
-                 !.due[c] = EffDelay(c, d), !.nT[c] = 0]
+                 !.due[c] = EffDelay(c, d), !.nT[c] = 0, !.nC[c] = 0]
 
 NextNew(S) == CHOOSE c \in Caches : S.st[c] = "new" /\ \A b \in Caches : b < c => S.st[b] # "new"
 HasNew(S)  == \E c \in Caches : S.st[c] = "new"
@@ -125,12 +140,34 @@ DoTimeout(S, c, op) ==
       S3 == [S2 EXCEPT !.fut[c] = IF @ = "pending" THEN (IF futk[c] = "exc" THEN "exception" ELSE "result") ELSE @]
   IN [S3 EXCEPT !.tracked[c] = FALSE, !.task[c] = "dying", !.due[c] = 0]  \* cancel_pending_task(cache); task ends
 
+(* what the body of a test handler does: nothing, fail, pop(identity) (directly or as a re-entrant response), or   *)
+(* add(the next fresh cache)                                                                                     *)
+HKinds    == {"none", "raise", "pop", "add"}
+HOk(k, a) == /\ k \in HScripts
+             /\ \/ k \in {"none", "raise"} /\ a = 0
+                \/ Nesting /\ k = "pop" /\ a \in Idents
+                \/ Nesting /\ k = "add" /\ a \in Delays
+
+(* (control only) the entry leaves the table without anybody claiming it *)
+DoUnlist(S, i) ==
+  LET c == S.table[i] IN
+  IF c = 0 THEN S ELSE CancelTask([S EXCEPT !.table[i] = 0], c)
+
+(* lazy_community.retrieve_cache around a plain handler: wrapper + handler body *)
+DoRespond(S, i, op) ==
+  LET c == S.table[i] IN
+  IF c = 0 THEN S                                             \* cache_retrieval_failed: the handler is not called
+  ELSE IF ClaimFirst THEN DoNested(DoPop(S, i), op)            \* claimed, then the body (which may raise: no effect)
+  ELSE LET S1 == [S EXCEPT !.st[c] = "claimed", !.nC[c] = @ + 1]
+           S2 == DoNested(S1, op)
+       IN IF op[1] = "raise" THEN S2 ELSE DoUnlist(S2, i)
+
 (* ------------------------------------------ actions --------------------------------------------- *)
 Add(c, d) ==
   /\ \/ st[c] = "new" /\ \A b \in Caches : b < c => st[b] # "new"
      \/ st[c] = "refused"
   /\ Apply(DoAdd(Cur, c, d))
-  /\ UNCHANGED <<params, zombie, shutdown, ovr, readds>>
+  /\ UNCHANGED <<params, zombie, shutdown, ovr, readds, hpend>>
 
 (* the same cache object, whose request has ended, is registered again (a new request).  When add() refuses it  *)
 (* (duplicate identity / shut down) the ended request stays what it was.                                         *)
@@ -140,12 +177,32 @@ ReAdd(c, d) ==
      THEN /\ Apply(DoAdd(Cur, c, d))
           /\ zombie' = [zombie EXCEPT ![c] = (task[c] = "dying")]
      ELSE /\ fut' = [fut EXCEPT ![c] = IF shutdown /\ @ = "pending" THEN "cancelled" ELSE @]
-          /\ UNCHANGED <<st, task, tracked, due, table, nT, late, zombie>>
+          /\ UNCHANGED <<st, task, tracked, due, table, nT, late, nC, zombie>>
   /\ readds' = readds + 1
-  /\ UNCHANGED <<params, shutdown, ovr>>
+  /\ UNCHANGED <<params, shutdown, ovr, hpend>>
 
 Pop(i) == /\ Apply(DoPop(Cur, i))
-          /\ UNCHANGED <<params, zombie, shutdown, ovr, readds>>
+          /\ UNCHANGED <<params, zombie, shutdown, ovr, readds, hpend>>
+
+(* a response arrives and is dispatched to a retrieve_cache handler whose body does <<k, a>> *)
+Respond(i, k, a) ==
+  /\ HOk(k, a) /\ (table[i] = 0 => k = "none")
+  /\ (k = "add" => HasNew(Cur))
+  /\ Apply(DoRespond(Cur, i, <<k, a>>))
+  /\ UNCHANGED <<params, zombie, shutdown, ovr, readds, hpend>>
+
+(* ... to a coroutine handler: the wrapper claims the cache now, the body is a later step *)
+RespondCo(i) ==
+  /\ CoHandlers /\ hpend = 0
+  /\ Apply(DoPop(Cur, i))
+  /\ hpend' = table[i]
+  /\ UNCHANGED <<params, zombie, shutdown, ovr, readds>>
+
+HandlerBody(k, a) ==
+  /\ hpend # 0 /\ NestOk(k, a) /\ (k = "add" => HasNew(Cur))
+  /\ Apply(DoNested(Cur, <<k, a>>))
+  /\ hpend' = 0
+  /\ UNCHANGED <<params, zombie, shutdown, ovr, readds>>
 
 (* first step of the task: delay_runner starts sleeping; with delay 0 register_task runs _on_timeout directly *)
 TaskStart(c, k, a) ==
@@ -156,35 +213,35 @@ TaskStart(c, k, a) ==
           /\ Apply(DoTimeout(Cur, c, op))
      ELSE /\ op = <<"none", 0>>
           /\ task' = [task EXCEPT ![c] = "armed"]
-          /\ UNCHANGED <<st, tracked, due, table, fut, nT, late>>
-  /\ UNCHANGED <<params, zombie, shutdown, ovr, readds>>
+          /\ UNCHANGED <<st, tracked, due, table, fut, nT, late, nC>>
+  /\ UNCHANGED <<params, zombie, shutdown, ovr, readds, hpend>>
 
 Tick == /\ \E c \in Caches : task[c] = "armed" /\ due[c] > 0
         /\ due' = [c \in Caches |-> IF task[c] = "armed" /\ due[c] > 0 THEN due[c] - 1 ELSE due[c]]
-        /\ UNCHANGED <<params, st, task, zombie, tracked, table, fut, nT, late, shutdown, ovr, readds>>
+        /\ UNCHANGED <<params, st, task, zombie, tracked, table, fut, nT, late, nC, shutdown, ovr, readds, hpend>>
 
 (* the loop runs the timer handle: the sleep future is completed, the task's wake-up is queued *)
 TimerFire(c) == /\ task[c] = "armed" /\ due[c] = 0
                 /\ task' = [task EXCEPT ![c] = "fired"]
-                /\ UNCHANGED <<params, st, zombie, tracked, due, table, fut, nT, late, shutdown, ovr, readds>>
+                /\ UNCHANGED <<params, st, zombie, tracked, due, table, fut, nT, late, nC, shutdown, ovr, readds, hpend>>
 
 (* the queued wake-up runs: delay_runner calls _on_timeout *)
 TaskWake(c, k, a) == /\ task[c] = "fired" /\ NestOk(k, a)
                      /\ (k = "add" => HasNew(Cur))
                      /\ Apply(DoTimeout(Cur, c, <<k, a>>))
-                     /\ UNCHANGED <<params, zombie, shutdown, ovr, readds>>
+                     /\ UNCHANGED <<params, zombie, shutdown, ovr, readds, hpend>>
 
 (* CancelledError delivered (if any) and done_cb of the current task: _pending_tasks.pop(name) *)
 Reap(c) == /\ task[c] = "dying"
            /\ task' = [task EXCEPT ![c] = "gone"]
            /\ tracked' = [tracked EXCEPT ![c] = FALSE]
-           /\ UNCHANGED <<params, st, zombie, due, table, fut, nT, late, shutdown, ovr, readds>>
+           /\ UNCHANGED <<params, st, zombie, due, table, fut, nT, late, nC, shutdown, ovr, readds, hpend>>
 
 (* done_cb of an earlier task of the same cache object *)
 ReapOld(c) == /\ zombie[c]
               /\ zombie' = [zombie EXCEPT ![c] = FALSE]
               /\ tracked' = [tracked EXCEPT ![c] = IF ReapOwnOnly THEN @ ELSE FALSE]
-              /\ UNCHANGED <<params, st, task, due, table, fut, nT, late, shutdown, ovr, readds>>
+              /\ UNCHANGED <<params, st, task, due, table, fut, nT, late, nC, shutdown, ovr, readds, hpend>>
 
 (* TaskManager.cancel_all_pending_tasks(): cancel_pending_task for every name in _pending_tasks *)
 CancelAll(S) ==
@@ -198,7 +255,7 @@ Clear ==
        Apply([S EXCEPT !.table = [i \in Idents |-> 0],
                        !.st = [c \in Caches |-> IF table[ident[c]] = c /\ S.st[c] = "outstanding" THEN "cleared"
                                                  ELSE S.st[c]]])
-  /\ UNCHANGED <<params, zombie, shutdown, ovr, readds>>
+  /\ UNCHANGED <<params, zombie, shutdown, ovr, readds, hpend>>
 
 (* the synchronous part of RequestCache.shutdown() *)
 Shutdown ==
@@ -208,21 +265,24 @@ Shutdown ==
        Apply([S EXCEPT !.table = [i \in Idents |-> 0],
                        !.fut = [c \in Caches |-> IF inT(c) /\ S.fut[c] = "pending" THEN "cancelled" ELSE S.fut[c]],
                        !.st = [c \in Caches |-> IF inT(c) /\ S.st[c] = "outstanding" THEN "halted" ELSE S.st[c]]])
-  /\ UNCHANGED <<params, zombie, ovr, readds>>
+  /\ UNCHANGED <<params, zombie, ovr, readds, hpend>>
 
 PassEnter(t, f) == /\ ~ovr.on /\ ovr' = [on |-> TRUE, t |-> t, filt |-> f]
-                   /\ UNCHANGED <<params, st, task, zombie, tracked, due, table, fut, nT, late, shutdown, readds>>
+                   /\ UNCHANGED <<params, st, task, zombie, tracked, due, table, fut, nT, late, nC, shutdown, readds, hpend>>
 PassExit == /\ ovr.on /\ ovr' = NoOvr
-            /\ UNCHANGED <<params, st, task, zombie, tracked, due, table, fut, nT, late, shutdown, readds>>
+            /\ UNCHANGED <<params, st, task, zombie, tracked, due, table, fut, nT, late, nC, shutdown, readds, hpend>>
 
 (* somebody else completes / cancels the managed future while the request is outstanding *)
 FutExt(c) == /\ ExtFut /\ fut[c] = "pending" /\ st[c] = "outstanding"
              /\ fut' = [fut EXCEPT ![c] = "ext"]
-             /\ UNCHANGED <<params, st, task, zombie, tracked, due, table, nT, late, shutdown, ovr, readds>>
+             /\ UNCHANGED <<params, st, task, zombie, tracked, due, table, nT, late, nC, shutdown, ovr, readds, hpend>>
 
 Next == \/ \E c \in Caches, d \in Delays : Add(c, d)
         \/ \E c \in Caches, d \in Delays : ReAdd(c, d)
         \/ \E i \in Idents : Pop(i)
+        \/ \E i \in Idents, k \in HKinds, a \in NestArgs : Respond(i, k, a)
+        \/ \E i \in Idents : RespondCo(i)
+        \/ \E k \in NestKinds, a \in NestArgs : HandlerBody(k, a)
         \/ \E c \in Caches, k \in NestKinds, a \in NestArgs : TaskStart(c, k, a)
         \/ Tick
         \/ \E c \in Caches : TimerFire(c)
@@ -242,10 +302,13 @@ TypeOK == /\ st \in [Caches -> {"new", "outstanding", "claimed", "timedout", "cl
           /\ task \in [Caches -> {"none", "start", "armed", "fired", "dying", "gone"}]
           /\ table \in [Idents -> Caches \cup {0}]
           /\ fut \in [Caches -> {"none", "pending", "result", "exception", "cancelled", "ext"}]
-          /\ \A c \in Caches : nT[c] \in 0..3 /\ due[c] \in Nat
+          /\ \A c \in Caches : nT[c] \in 0..3 /\ nC[c] \in 0..3 /\ due[c] \in Nat
+          /\ hpend \in Caches \cup {0}
 
 (* exactly one way to end: a claimed request never times out; a time-out happens once *)
-ExactlyOnce        == \A c \in Caches : nT[c] <= 1 /\ (nT[c] = 1 => st[c] = "timedout")
+ExactlyOnce        == \A c \in Caches : nT[c] <= 1 /\ (nT[c] = 1 => st[c] = "timedout") /\ nC[c] + nT[c] <= 1
+(* claimed means: handed to exactly one claimant (a pop() caller or a handler), however that claimant fares *)
+ClaimedOnce        == \A c \in Caches : nC[c] <= 1 /\ (nC[c] = 1 <=> st[c] = "claimed")
 NoTimeoutAfterClaim == \A c \in Caches : st[c] = "claimed" => nT[c] = 0
 (* ... and every request that is still outstanding has its time-out ahead of it *)
 OutstandingWillEnd == \A c \in Caches : st[c] = "outstanding" => task[c] \in Live /\ tracked[c]
